@@ -145,6 +145,8 @@ class Ctx:
             rec = self.__dict__.setdefault("_cli_recorded", [])
             for rn, x in zip(runs, r):
                 a = rn["args"]
+                if any(isinstance(q, (bytes, bytearray)) for q in a):
+                    continue
                 if a and a[0] != "new" and x.cls in ("ok", "error") and not (rn.get("env") or {}).get("LD_PRELOAD") \
                         and len(rn.get("stdin") or b"") < 200000 and not rn.get("cwd") and len(rec) < 4000:
                     rn2 = self._snapshot_files(rn)
